@@ -43,7 +43,7 @@ THEOREMS = [P + t for t in (
     "kron_gate_is_local", "uncoupled_half_step", "uncoupled_is_product",
     "uncoupled_site_is_compute_dynamics", "site_sequence_eq", "uncoupled_reduced_state",
     "two_site_exact", "commuting_gates_exact", "uncoupled_gates_commute",
-    "norm_step", "norm_one", "partial_trace_consistent",
+    "norm_step", "norm_one", "partial_trace_consistent", "gate_on_own_bond",
     "site_dissipator_trace_annihilating", "nn_dissipator_trace_annihilating",
     "hamiltonian_terms_trace_annihilating", "dissipators_hermiticity_preserving",
     "hamiltonian_terms_hermiticity_preserving", "kronecker_is_pairing",
@@ -96,7 +96,8 @@ def _nonnormal(rng, d):
 
 
 def gen_spec(rng, n, kind, order, dims=None, pts=None, steps=2, dt=None, epsrel=1e-8,
-             sites=None, dissipation=None, nn_dissipation=None):
+             sites=None, dissipation=None, nn_dissipation=None, homogeneous=False,
+             site_terms=True):
     """kind: 'coupled' | 'uncoupled' | 'commuting' (diagonal site and coupling operators)"""
     dims = dims or [2] * n
     dt = dt if dt is not None else rng.choice([0.1, 0.05, 0.2])
@@ -131,6 +132,16 @@ def gen_spec(rng, n, kind, order, dims=None, pts=None, steps=2, dt=None, epsrel=
                 dterms.append([rng.uniform(0.2, 0.8), enc(_nonnormal(rng, dims[i])),
                                enc(_nonnormal(rng, dims[i + 1]))])
         nn_diss.append(dterms)
+    if homogeneous:
+        # translation invariant: the same site terms on every site, the same coupling on every
+        # bond (bulk bonds then have bit-identical full Liouvillians)
+        site_h = [site_h[0]] * n
+        site_diss = [site_diss[0]] * n
+        nn_h = [nn_h[0]] * (n - 1)
+        nn_diss = [nn_diss[0]] * (n - 1)
+    if not site_terms:
+        site_h = [enc(np.zeros((d, d))) for d in dims]
+        site_diss = [[] for _ in dims]
     if sites is None:
         sites = list(range(n)) + [[0, 1]]
         if n >= 3:
@@ -138,7 +149,7 @@ def gen_spec(rng, n, kind, order, dims=None, pts=None, steps=2, dt=None, epsrel=
     return {"dims": dims, "site_h": site_h, "site_diss": site_diss, "nn_h": nn_h, "nn_diss": nn_diss,
             "rho0": [enc(_dm(rng, d)) for d in dims], "pts": pts or [None] * n, "order": order,
             "dt": dt, "epsrel": epsrel, "steps": steps, "sites": sites, "controls": [],
-            "kind": kind}
+            "kind": kind, "homogeneous": bool(homogeneous), "site_terms": bool(site_terms)}
 
 
 _PT_CACHE = {}
@@ -359,7 +370,8 @@ def oracle_uncoupled(spec, real=None):
         ref = site_dynamics(spec, j)
         err = max(float(np.abs(a - b).max()) for a, b in zip(real["dyn"][str(j)], ref))
         if err > 1e-8:
-            bad.append(("uncoupled chain: site %d differs from its single-site computation" % j,
+            bad.append(("%suncoupled chain: site %d differs from its single-site computation"
+                        % ("homogeneous " if spec.get("homogeneous") else "", j),
                         {"spec": spec, "site": j, "max_abs_difference": err}))
     return bad
 
@@ -374,8 +386,8 @@ def oracle_dense(spec, real=None, what="two-site"):
         err = max(float(np.abs(st - reduce_dense(v, spec["dims"], keep)).max())
                   for st, v in zip(states, ref))
         if err > 1e-8:
-            bad.append(("%s chain: sites %s differ from the propagator of the full Liouvillian"
-                        % (what, key), {"spec": spec, "sites": keep, "max_abs_difference": err}))
+            bad.append(("%s%s chain: sites %s differ from the propagator of the full Liouvillian"
+                        % ("homogeneous " if spec.get("homogeneous") else "", what, key), {"spec": spec, "sites": keep, "max_abs_difference": err}))
     return bad
 
 
@@ -1134,6 +1146,7 @@ def correspondence(res, tier, rng):
     rel.append(("coupled", gen_spec(rng, 4, "coupled", 2, steps=2, epsrel=1e-9,
                                     pts=[None, None, dict(tempo, axis="z"), None],
                                     sites=[0, 1, 2, 3, [0, 1], [1, 3], [0, 1, 3], [1, 2, 3]])))
+    rel += homogeneous_specs(rng, tempo)
     if tier != "quick":
         for _ in range(6):
             n = rng.choice([2, 3, 4, 5])
@@ -1143,13 +1156,30 @@ def correspondence(res, tier, rng):
                                  dims=[rng.choice([2, 2, 3]) for _ in range(n)] if n <= 3 else None)))
     for what, spec in rel:
         bad = relations(what, spec)
-        res.case("relation:%s:n=%d:order=%d" % (what, len(spec["dims"]), spec["order"]), True)
-        res.count("relation:" + what)
+        res.case("relation:%s:n=%d:order=%d:hom=%s:siteterms=%s" % (
+            what, len(spec["dims"]), spec["order"], spec.get("homogeneous"), spec.get("site_terms")), True)
+        res.count("relation:" + what + (":homogeneous" if spec.get("homogeneous") else ""))
         for key, payload in bad:
             res.disagree("real code violates: " + key, payload)
 
     # -- (8) the three execution modes, fresh interpreters --------------------------------------
     compare_modes(res, None, started=started)
+
+
+def homogeneous_specs(rng, tempo):
+    """translation-invariant chains: two or more bonds with bit-identical full Liouvillians
+    (N = 5 with identical site terms and couplings; N = 3 / 4 without site terms)"""
+    z = dict(tempo, axis="z")
+    return [
+        ("uncoupled", gen_spec(rng, 5, "uncoupled", 2, pts=[None, None, z, None, None], steps=2,
+                               epsrel=1e-10, homogeneous=True, sites=[0, 1, 2, 3, 4, [1, 3]])),
+        ("commuting", gen_spec(rng, 5, "commuting", 1, steps=2, epsrel=1e-10, homogeneous=True,
+                               sites=[0, 1, 2, 3, 4, [1, 2], [2, 3]])),
+        ("commuting", gen_spec(rng, 3, "commuting", 2, steps=2, epsrel=1e-10, homogeneous=True,
+                               site_terms=False, sites=[0, 1, 2, [0, 1], [1, 2], [0, 1, 2]])),
+        ("commuting", gen_spec(rng, 4, "commuting", 1, steps=2, epsrel=1e-10, homogeneous=True,
+                               site_terms=False, sites=[0, 1, 2, 3, [1, 2], [2, 3]])),
+    ]
 
 
 def relations(what, spec):
@@ -1179,6 +1209,7 @@ def search(res, rng=None):
     # (b) relations of the property text; first the inputs on which the real tensors violated the
     #     hypotheses of norm_step, then ladder-operator dissipators (hopping, pair decay)
     todo = [("coupled", spec) for spec, _ in getattr(res, "hyp_violations", [])[:3]]
+    todo += homogeneous_specs(rng, tempo)
     sm = np.array([[0, 0], [1, 0]], dtype=complex)
     for n, (opl, opr_), g in ((3, (sm, sm.T), 0.9), (2, (sm, sm), 1.2)):
         spec = gen_spec(rng, n, "coupled", 2, steps=3, epsrel=1e-10, nn_dissipation=False,
